@@ -46,6 +46,7 @@ class Contract:
 	ghost_params: dict[str, str] = field(default_factory=dict)  # extra universally quantified ghost inputs: name -> type
 	assume_pure_calls: list[str] = field(default_factory=list)
 	max_paths: int = 4000
+	consts: dict[str, Any] = field(default_factory=dict)  # named constants usable in clause text
 
 	@property
 	def key(self) -> tuple[str, str]:
